@@ -6,7 +6,8 @@ C13 — executable model of the rate change, as the code is written now:
                               (`pd.concat` of all lists, column assignment, `_update` slicing by `_ixs`
                               and projecting every list on its own columns);
 * `reamber/base/MapSet.py`    `MapSet.rate` = deepcopy; `[m.rate(by) for m in copy.maps]`;
-* `reamber/osu/OsuMap.py`     `OsuMap.rate` = `Map.rate`, then `samples.offset /= by`, `preview_time /= by`;
+* `reamber/osu/OsuMap.py`     `OsuMap.rate` = `Map.rate`, then `samples.offset /= by`, and `preview_time /= by` unless it is
+                              negative (the "no preview point" marker, repair D41);
 * `reamber/sm/SMMapSet.py`    `SMMapSet.rate` = `MapSet.rate`, then `sample_start /= by`,
                               `sample_length /= by`, and `offset /= by` unless `offset is None`.
 
@@ -160,17 +161,21 @@ def Frame.divCol (f : Frame) (c : String) (r : Rat) : Except Err Frame := do
 def withFrames (ls : List (String × Frame)) (fs : List Frame) : List (String × Frame) :=
   List.zipWith (fun p f => (p.1, f)) ls fs
 
+/-- `if osu.preview_time >= 0: osu.preview_time /= by` — a negative preview time is osu's "no preview point" marker
+(repair D41) -/
+def ratePreview (r pv : Rat) : Rat := if 0 ≤ pv then pv / r else pv
+
 /-- `m.rate(by)` dispatched on the map's class -/
 def rateChart (g : Game) (r : Rat) (c : Chart) : Except Err Chart := do
   let fs ← rateLists r (c.lists.map (·.2))
   let c1 : Chart := { c with lists := withFrames c.lists fs }
   match g with
   | .osu =>
-    -- osu.samples.offset /= by ; osu.preview_time /= by
+    -- osu.samples.offset /= by ; if osu.preview_time >= 0: osu.preview_time /= by
     match c1.samples, c1.preview with
     | some sm, some pv => do
       let sm' ← sm.divCol "offset" r
-      .ok { c1 with samples := some sm', preview := some (pv / r) }
+      .ok { c1 with samples := some sm', preview := some (ratePreview r pv) }
     | _, _ => .error .type
   | _ => .ok c1
 
